@@ -176,6 +176,7 @@ func Shrink(h *History, prop, class string, eval evalFn, budget int) *History {
 		func(c *Config) { c.Defer = false },
 		func(c *Config) { c.PanicKind = 0 },
 		func(c *Config) { c.ValMask = 0 },
+		func(c *Config) { c.AltMask = 0 },
 	} {
 		c := cur.Clone()
 		mut(&c.Cfg)
@@ -225,7 +226,10 @@ func specMutations(f *Func) []Func {
 	}
 	add(func(c *Func) bool { ok := c.Callback; c.Callback = false; return ok })
 	add(func(c *Func) bool { ok := c.Info; c.Info = false; return ok })
+	add(func(c *Func) bool { ok := c.LocPC; c.LocPC = false; return ok })
+	add(func(c *Func) bool { ok := c.ReuseInfo; c.ReuseInfo = false; return ok })
 	add(func(c *Func) bool { ok := c.Export; c.Export = false; return ok })
+	add(func(c *Func) bool { ok := c.OptNoise; c.OptNoise = false; return ok })
 	add(func(c *Func) bool { ok := c.DurNs != 0; c.DurNs = 0; return ok })
 	if f.Cat >= 0 {
 		// the signature of a declared catalogue function is fixed
@@ -250,6 +254,7 @@ func specMutations(f *Func) []Func {
 	add(func(c *Func) bool { ok := c.ErrAt > 0; c.ErrAt = 0; return ok })
 	add(func(c *Func) bool { ok := c.ErrExtra > 0; c.ErrExtra = 0; return ok })
 	add(func(c *Func) bool { ok := c.Reenter; c.Reenter = false; return ok })
+	add(func(c *Func) bool { ok := c.ThenProvide > 0; c.ThenProvide = 0; return ok })
 	add(func(c *Func) bool {
 		ok := c.HasErr
 		c.HasErr = false
@@ -381,6 +386,18 @@ func Compact(h *History) *History {
 			funcs = append(funcs, f)
 		}
 		o.Fn = remap[o.Fn]
+	}
+	// constructors registered from inside an invoked function travel with it
+	for i := 0; i < len(funcs); i++ {
+		if t := funcs[i].ThenProvide - 1; t >= 0 && t < len(h.Funcs) {
+			if _, ok := remap[t]; !ok {
+				remap[t] = len(funcs)
+				f := deepCopyFunc(&h.Funcs[t])
+				f.ID = len(funcs)
+				funcs = append(funcs, f)
+			}
+			funcs[i].ThenProvide = remap[t] + 1
+		}
 	}
 	var faults []Fault
 	for _, f := range c.Faults {
